@@ -262,3 +262,9 @@ def check(ctx):
     check_W3(ctx, facts)
     check_W4(ctx, facts)
     check_W5(ctx, facts)
+    # W7: the selector answers from the CURRENT membership (C15.N1/N2 re-evaluated here: nodes_selector.rs is one of C06's anchors)
+    import c15
+    n0 = len(ctx.obs)
+    c15.check_actor(ctx, facts)
+    for o in ctx.obs[n0:]:
+        o.rule = 'C06.W7'
